@@ -1,0 +1,10 @@
+//go:build !verif
+
+package interpreter
+
+// Counterparts of the verification hooks in verif_on.go: with the `verif`
+// build tag off they do nothing.
+
+func verifTick()  {}
+func verifEnter() {}
+func verifLeave() {}
